@@ -443,3 +443,352 @@ Proof.
   - intros c' w' ctr1 r1 ctr2 lg1 H1 H2. apply (mexec_refines s c' w' ctr1 [] None); auto.
   - unfold depth_exceeded, MAX_CALL_DEPTH. unfold MAX_DEPTH in Hd. lia.
 Qed.
+
+(* ------------------------------------------------------------------ atomicity at the callbacks *)
+Lemma restore_call_world : forall orig sub, world_of (restore_call orig sub) = world_of orig.
+Proof. reflexivity. Qed.
+Lemma restore_create_world : forall orig sub, world_of (restore_create orig sub) = world_of orig.
+Proof. reflexivity. Qed.
+
+(* a continuation that only reports what the caller is handed: failure iff output.error *)
+Definition probe : mstate -> list Z -> lastsub -> list mres :=
+  fun st' ob' l' =>
+    [(match l' with Some (_, true, _) => FRevert ob' | _ => FOk ob' end, st', [])].
+
+Lemma in_map_addlog_probe : forall pre st' ob' l' f st lg,
+  In (f, st, lg) (map (addlog pre) (probe st' ob' l')) ->
+  st = st' /\ f = match l' with Some (_, true, _) => FRevert ob' | _ => FOk ob' end.
+Proof.
+  intros. cbn in H. destruct H as [H|[]]. inversion H; subst. auto.
+Qed.
+
+Lemma transfer_value_world : forall st a b v st', transfer_value st a b v = Some st' ->
+  m_code st' = m_code st /\ m_storage st' = m_storage st /\ m_transient st' = m_transient st.
+Proof.
+  intros st a b v st' H. unfold transfer_value in H.
+  destruct (v =? 0); [inversion H; subst; auto|].
+  destruct (negb _); [discriminate|]. inversion H; subst. cbn. auto.
+Qed.
+
+(* whatever the callee does (ANY function [run], any number of result paths, any states):
+   when the caller is told that the call failed, its world is the one before the call *)
+Theorem model_call_atomic : forall kd to v rsz c st ob run f st' lg ob',
+  In (f, st', lg) (m_call kd to v rsz c st ob run probe) ->
+  f = FRevert ob' ->
+  world_of st' = world_of st.
+Proof.
+  intros kd to v rsz c st ob run f st' lg ob' Hin Hf.
+  unfold m_call in Hin. cbv zeta in Hin.
+  apply in_app_or in Hin as [Hin|Hin].
+  - destruct (negb _ && _); [|contradiction].
+    cbn in Hin. destruct Hin as [H|[]]. inversion H; subst. reflexivity.
+  - unfold call_backup_before_transfer in Hin.
+    destruct (in_code st (to mod 2 ^ 160)).
+    + destruct (if sends_value (op_of kd) then _ else _) as [st1|] eqn:Hsend; [|contradiction].
+      apply in_flat_map in Hin as ([[r st2] lg0] & _ & Hin).
+      destruct r; cbn [output_of call_success negb] in Hin;
+        apply in_map_addlog_probe in Hin as [-> ->]; try discriminate Hf; apply restore_call_world.
+    + destruct (if sends_value (op_of kd) then _ else _) as [st1|] eqn:Hsend; [|contradiction].
+      apply in_map_addlog_probe in Hin as [-> ->]. discriminate Hf.
+Qed.
+
+Theorem model_create_atomic : forall v initcode c st ob run f st' lg ob',
+  In (f, st', lg) (m_create v initcode c st ob run probe) ->
+  f = FRevert ob' ->
+  world_of st' = world_of st.
+Proof.
+  intros v initcode c st ob run f st' lg ob' Hin Hf.
+  unfold m_create in Hin. cbv zeta in Hin.
+  destruct (create_static_check && c_static c).
+  { destruct Hin as [H|[]]. inversion H; subst. discriminate. }
+  unfold create_backup_before_setup in Hin.
+  apply in_app_or in Hin as [Hin|Hin].
+  - destruct (negb _ && _); [|contradiction].
+    cbn in Hin. destruct Hin as [H|[]]. inversion H; subst. reflexivity.
+  - destruct (in_code _ _).
+    + cbn in Hin. destruct Hin as [H|[]]. inversion H; subst. reflexivity.
+    + destruct (transfer_value _ _ _ _) as [st2|]; [|contradiction].
+      apply in_flat_map in Hin as ([[r st3] lg0] & _ & Hin).
+      destruct r; cbn [output_of create_success negb] in Hin;
+        apply in_map_addlog_probe in Hin as [-> ->]; try discriminate Hf;
+        rewrite restore_create_world; reflexivity.
+Qed.
+
+(* ------------------------------------------------------------------ conservation *)
+Lemma get_balance_set : forall w a x b,
+  get_balance (set_balance w a x) b = if b =? a then x else get_balance w b.
+Proof. intros. unfold get_balance, set_balance. cbn. destruct (b =? a); reflexivity. Qed.
+
+Lemma total_set_notin : forall addrs w a x, ~ In a addrs -> total addrs (set_balance w a x) = total addrs w.
+Proof.
+  induction addrs as [|b addrs IH]; intros w a x Hn; cbn [total]; [reflexivity|].
+  rewrite get_balance_set, IH by (intros H; apply Hn; right; exact H).
+  destruct (b =? a) eqn:E; [|reflexivity].
+  apply Z.eqb_eq in E. subst. exfalso. apply Hn. left. reflexivity.
+Qed.
+
+Lemma total_set_in : forall addrs w a x, NoDup addrs -> In a addrs ->
+  total addrs (set_balance w a x) = total addrs w + (x - get_balance w a).
+Proof.
+  induction addrs as [|b addrs IH]; intros w a x Hnd Hin; [contradiction|].
+  inversion Hnd as [|? ? Hnb Hnd']; subst. cbn [total]. rewrite get_balance_set.
+  destruct (b =? a) eqn:E.
+  - apply Z.eqb_eq in E. subst. rewrite total_set_notin by exact Hnb. lia.
+  - destruct Hin as [->|Hin]; [rewrite Z.eqb_refl in E; discriminate|].
+    rewrite IH by assumption. lia.
+Qed.
+
+(* the reference interpreter's value transfer conserves the total over any duplicate-free
+   set of addresses containing both parties *)
+Theorem transfer_conserves : forall addrs w from to v,
+  NoDup addrs -> In from addrs -> In to addrs ->
+  total addrs (transfer w from to v) = total addrs w.
+Proof.
+  intros addrs w from to v Hnd Hf Ht. unfold transfer.
+  rewrite total_set_in by assumption. rewrite get_balance_set.
+  rewrite total_set_in by assumption.
+  destruct (to =? from) eqn:E; [apply Z.eqb_eq in E; subst|]; lia.
+Qed.
+
+(* w' extends w's balance list by [delta]; the total over any duplicate-free address
+   set covering the addresses whose balance entry changed is unchanged *)
+Definition bal_ext (w w' : world) : Prop :=
+  exists delta, w_balance w' = delta ++ w_balance w /\
+    forall addrs, NoDup addrs -> (forall a, In a (map fst delta) -> In a addrs) ->
+      total addrs w' = total addrs w.
+
+Lemma total_balance_only : forall addrs w w', w_balance w = w_balance w' -> total addrs w = total addrs w'.
+Proof.
+  induction addrs; intros; cbn [total]; [reflexivity|].
+  unfold get_balance. rewrite H. erewrite IHaddrs; eauto.
+Qed.
+
+Lemma bal_ext_refl_eq : forall w w', w_balance w' = w_balance w -> bal_ext w w'.
+Proof.
+  intros. exists []. split; [exact H|]. intros. apply total_balance_only. exact H.
+Qed.
+Lemma bal_ext_refl : forall w, bal_ext w w.
+Proof. intros. apply bal_ext_refl_eq. reflexivity. Qed.
+
+Lemma bal_ext_trans : forall w1 w2 w3, bal_ext w1 w2 -> bal_ext w2 w3 -> bal_ext w1 w3.
+Proof.
+  intros w1 w2 w3 (d1 & E1 & T1) (d2 & E2 & T2). exists (d2 ++ d1). split.
+  - rewrite E2, E1, app_assoc. reflexivity.
+  - intros addrs Hnd Hin. rewrite T2, T1; auto.
+    + intros a Ha. apply Hin. rewrite map_app. apply in_or_app. right. exact Ha.
+    + intros a Ha. apply Hin. rewrite map_app. apply in_or_app. left. exact Ha.
+Qed.
+
+Lemma bal_ext_xfer : forall w from to v, bal_ext w (xfer w from to v).
+Proof.
+  intros. unfold xfer. destruct (v =? 0); [apply bal_ext_refl|].
+  exists [(to, get_balance (set_balance w from (get_balance w from - v)) to + v); (from, get_balance w from - v)].
+  split; [reflexivity|].
+  intros addrs Hnd Hin. apply transfer_conserves; auto; apply Hin; cbn; auto.
+Qed.
+
+Theorem sexec_conserves : forall s c w ctr ob rd ret w' ctr' lg,
+  sexec s c w ctr ob rd = (SOk ret w', ctr', lg) -> bal_ext w w'.
+Proof.
+  induction s; intros c w ctr ob rd ret w' ctr' lg Hs; cbn [sexec] in Hs.
+  - destruct e; cbn in Hs; inversion Hs; subst; apply bal_ext_refl.
+  - destruct (c_static c); [discriminate|]. apply IHs in Hs.
+    eapply bal_ext_trans; [|exact Hs]. apply bal_ext_refl_eq. reflexivity.
+  - destruct (c_static c); [discriminate|]. apply IHs in Hs.
+    eapply bal_ext_trans; [|exact Hs]. apply bal_ext_refl_eq. reflexivity.
+  - destruct (c_static c); [discriminate|].
+    destruct (sexec s c w ctr ob rd) as [[r0 c0] l0] eqn:E. inversion Hs; subst. eauto.
+  - eauto.
+  - destruct (blen rd <? off + size); [discriminate|]. eauto.
+  - destruct (is_kcall kd && c_static c && negb _); [discriminate|].
+    destruct (MAX_DEPTH <? c_depth c + 1).
+    { destruct (sexec s2 c w ctr _ _) as [[r0 c0] l0] eqn:E. inversion Hs; subst. eauto. }
+    destruct (carries_value kd && negb _).
+    { destruct (sexec s2 c w ctr _ _) as [[r0 c0] l0] eqn:E. inversion Hs; subst. eauto. }
+    set (w1 := if is_kcall kd then xfer w (c_this c) (to mod ADDR_MOD) (if carries_value kd then v else 0) else w) in *.
+    assert (H1 : bal_ext w w1) by (subst w1; destruct (is_kcall kd); [apply bal_ext_xfer | apply bal_ext_refl]).
+    destruct (match c_code _ with [] => _ | _ => _ end) as [[r1 c1] l1] eqn:Esub.
+    assert (H2 : forall ret1 w2, r1 = SOk ret1 w2 -> bal_ext w1 w2).
+    { intros ret1 w2 ->. destruct (c_code _).
+      - unfold stop_frame in Esub. inversion Esub; subst. apply bal_ext_refl.
+      - destruct (sexec s1 _ w1 ctr [] []) as [[r0 c0] l0] eqn:E. inversion Esub; subst. eauto. }
+    destruct (match r1 with SOk _ _ => _ | SRevert _ => _ | SHalt => _ end) as [[r2 c2] l2] eqn:Erest.
+    inversion Hs; subst.
+    destruct r1 as [ret1 w2| |]; eauto.
+    eapply bal_ext_trans; [exact H1|]. eapply bal_ext_trans; [eapply H2; reflexivity|]. eauto.
+  - destruct (c_static c); [discriminate|].
+    destruct (_ || _ || _); [eauto|].
+    set (new := CREATE_BASE + (ctr + 1)) in *.
+    set (w1 := xfer (new_account w new) (c_this c) new v) in *.
+    assert (H1 : bal_ext w w1).
+    { eapply bal_ext_trans; [|apply bal_ext_xfer]. apply bal_ext_refl_eq. reflexivity. }
+    destruct (match initcode with [] => _ | _ => _ end) as [[r1 c1] l1] eqn:Esub.
+    assert (H2 : forall ret1 w2, r1 = SOk ret1 w2 -> bal_ext w1 w2).
+    { intros ret1 w2 ->. destruct initcode.
+      - unfold stop_frame in Esub. inversion Esub; subst. apply bal_ext_refl.
+      - destruct (sexec s1 _ w1 _ [] []) as [[r0 c0] l0] eqn:E. inversion Esub; subst. eauto. }
+    destruct (match r1 with SOk _ _ => _ | SRevert _ => _ | SHalt => _ end) as [[r2 c2] l2] eqn:Erest.
+    inversion Hs; subst.
+    destruct r1 as [ret1 w2| |]; eauto.
+    eapply bal_ext_trans; [exact H1|]. eapply bal_ext_trans; [eapply H2; reflexivity|].
+    apply IHs2 in Erest. eapply bal_ext_trans; [|exact Erest]. apply bal_ext_refl_eq. reflexivity.
+Qed.
+
+(* ------------------------------------------------------------------ static context *)
+Theorem model_static_sstore : forall k v rest c st ob l, c_static c = true ->
+  mexec (SSstore k v rest) c st ob l = [(FHalt, st, [LEnd FHalt])].
+Proof. intros. cbn [mexec]. rewrite H. reflexivity. Qed.
+Theorem model_static_tstore : forall k v rest c st ob l, c_static c = true ->
+  mexec (STstore k v rest) c st ob l = [(FHalt, st, [LEnd FHalt])].
+Proof. intros. cbn [mexec]. rewrite H. reflexivity. Qed.
+Theorem model_static_log : forall rest c st ob l, c_static c = true ->
+  mexec (SLog rest) c st ob l = [(FHalt, st, [LEnd FHalt])].
+Proof. intros. cbn [mexec]. rewrite H. reflexivity. Qed.
+Theorem model_static_create : forall v ic init rest c st ob l, c_static c = true ->
+  mexec (SCreate v ic init rest) c st ob l = [(FHalt, st, [LEnd FHalt])].
+Proof. intros. cbn [mexec]. unfold m_create. rewrite H. reflexivity. Qed.
+(* the static flag is inherited by every kind of call and set by STATICCALL *)
+Theorem model_static_inherited : forall kd b, msg_static (op_of kd) true = true /\ msg_static (op_of KStatic) b = true.
+Proof. intros. destruct kd, b; auto. Qed.
+
+Lemma sub_ctx_static : forall kd c w to v, c_static c = true -> c_static (sub_ctx kd c w to v) = true.
+Proof. destruct kd; cbn; auto. Qed.
+
+(* specification: a frame running in a static context cannot change the world *)
+Theorem sexec_static_pure : forall s c w ctr ob rd ret w' ctr' lg,
+  c_static c = true -> sexec s c w ctr ob rd = (SOk ret w', ctr', lg) -> w' = w.
+Proof.
+  induction s; intros c w ctr ob rd ret w' ctr' lg Hst Hs; cbn [sexec] in Hs; try rewrite Hst in Hs; try discriminate.
+  - destruct e; cbn in Hs; inversion Hs; subst; reflexivity.
+  - eauto.
+  - destruct (blen rd <? off + size); [discriminate|]. eauto.
+  - rewrite andb_true_r in Hs.
+    destruct (is_kcall kd && negb _) eqn:Hv; [discriminate|].
+    destruct (MAX_DEPTH <? c_depth c + 1).
+    { destruct (sexec s2 c w ctr _ _) as [[r0 c0] l0] eqn:E. inversion Hs; subst. eauto. }
+    destruct (carries_value kd && negb _).
+    { destruct (sexec s2 c w ctr _ _) as [[r0 c0] l0] eqn:E. inversion Hs; subst. eauto. }
+    assert (Hw1 : (if is_kcall kd then xfer w (c_this c) (to mod ADDR_MOD) (if carries_value kd then v else 0) else w) = w).
+    { destruct kd; cbn in *; try reflexivity. unfold xfer. destruct (v =? 0); [reflexivity | discriminate]. }
+    rewrite Hw1 in Hs.
+    destruct (match c_code _ with [] => _ | _ => _ end) as [[r1 c1] l1] eqn:Esub.
+    assert (H2 : forall ret1 w2, r1 = SOk ret1 w2 -> w2 = w).
+    { intros ret1 w2 ->. destruct (c_code _).
+      - unfold stop_frame in Esub. inversion Esub; subst. reflexivity.
+      - destruct (sexec s1 _ w ctr [] []) as [[r0 c0] l0] eqn:E. inversion Esub; subst.
+        eapply IHs1; [|exact E]. apply sub_ctx_static. exact Hst. }
+    destruct (match r1 with SOk _ _ => _ | SRevert _ => _ | SHalt => _ end) as [[r2 c2] l2] eqn:Erest.
+    inversion Hs; subst.
+    destruct r1 as [ret1 w2| |]; eauto.
+    rewrite (H2 _ _ eq_refl) in Erest. eauto.
+Qed.
+
+(* ------------------------------------------------------------------ the known deviations *)
+Definition ctx0 (static : bool) (depth : Z) : fctx := mkCtx 4096 77 77 0 [0] static depth.
+Definition world0 (bal : Z) : world :=
+  mkWorld [(4096, [0]); (8192, [0])] [] [] [(4096, bal)].
+
+(* F11: a value-bearing CALL inside a static frame is executed (balances move) *)
+Theorem static_value_call_refuted :
+  exists s c w ctr, supported s = true /\ c_static c = true /\ c_depth c <= MAX_DEPTH /\
+    fst (fst (sframe s c w ctr)) = SHalt /\
+    exists ret st lg, In (FOk ret, st, lg) (mframe s c (mstate_of w ctr)) /\ world_of st <> w.
+Proof.
+  exists (SCall KCall 8192 5 0 (SEnd EStop) (SEnd EStop)), (ctx0 true 1), (world0 10), 0.
+  split; [reflexivity|]. split; [reflexivity|]. split; [cbv; discriminate|]. split; [reflexivity|].
+  eexists _, _, _. split; [vm_compute; left; reflexivity|]. vm_compute. discriminate.
+Qed.
+
+(* CALLCODE with value > balance: besides the failing path, a succeeding path is reported *)
+Theorem callcode_funds_refuted :
+  exists s c w ctr, supported s = true /\ c_depth c <= MAX_DEPTH /\
+    ~ Forall (fun m => R m (sframe s c w ctr)) (mframe s c (mstate_of w ctr)).
+Proof.
+  exists (SCall KCallcode 8192 5 0 (SEnd EStop) (SEnd (EReturn 7))), (ctx0 false 1), (world0 0), 0.
+  split; [reflexivity|]. split; [cbv; discriminate|].
+  intros H. vm_compute in H. inversion H as [|? ? _ H2]; subst. inversion H2 as [|? ? H3 _]; subst.
+  destruct H3 as (_ & _ & H3 & _). discriminate H3.
+Qed.
+
+(* RETURNDATACOPY with size 0 and an offset beyond the return data does not halt *)
+Theorem retcopy_zero_refuted :
+  exists s c w ctr, supported s = true /\ c_depth c <= MAX_DEPTH /\
+    ~ Forall (fun m => R m (sframe s c w ctr)) (mframe s c (mstate_of w ctr)).
+Proof.
+  exists (SRetCopy 1 0 (SEnd EStop)), (ctx0 false 1), (world0 0), 0.
+  split; [reflexivity|]. split; [cbv; discriminate|].
+  intros H. vm_compute in H. inversion H as [|? ? H1 _]; subst.
+  destruct H1 as (_ & _ & H1). discriminate H1.
+Qed.
+
+(* a call of an address without account at the depth limit succeeds *)
+Theorem depth_nocode_refuted :
+  exists s c w ctr, supported s = true /\ c_depth c <= MAX_DEPTH /\
+    ~ Forall (fun m => R m (sframe s c w ctr)) (mframe s c (mstate_of w ctr)).
+Proof.
+  exists (SCall KCall 12288 0 0 (SEnd EStop) (SEnd (EReturn 7))), (ctx0 false 1024), (world0 0), 0.
+  split; [reflexivity|]. split; [cbv; discriminate|].
+  intros H. vm_compute in H. inversion H as [|? ? H1 _]; subst.
+  destruct H1 as (_ & _ & H1 & _). discriminate H1.
+Qed.
+
+(* ------------------------------------------------------------------ whole-frame corollaries *)
+Theorem mframe_conserves : forall s c w ctr r ctr' lg ret st lg',
+  c_depth c <= MAX_DEPTH -> sframe s c w ctr = (r, ctr', lg) -> clean lg = true ->
+  In (FOk ret, st, lg') (mframe s c (mstate_of w ctr)) ->
+  bal_ext w (world_of st).
+Proof.
+  intros s c w ctr r ctr' lg ret st lg' Hd Hs Hcl Hin.
+  destruct (mframe_refines _ _ _ _ _ _ _ Hd Hs Hcl) as [_ Hall].
+  rewrite Forall_forall in Hall. specialize (Hall _ Hin).
+  destruct r as [ret0 w0| |]; destruct Hall as (_ & _ & Hr); try discriminate Hr.
+  destruct Hr as [_ <-].
+  unfold sframe in Hs. destruct (c_code c).
+  - unfold stop_frame in Hs. inversion Hs; subst. apply bal_ext_refl.
+  - destruct (sexec s c w ctr [] []) as [[r0 c0] l0] eqn:E. inversion Hs; subst.
+    eapply sexec_conserves; eauto.
+Qed.
+
+(* ------------------------------------------------------------------ reference interpreter (Spec/Evm.v) *)
+(* do_call: either the status word is 1, or the caller's world is untouched -- for ANY sub-frame executor *)
+Theorem evm_do_call_atomic : forall lim run_sub e s op s',
+  do_call lim run_sub e s op = Continue s' ->
+  (exists r, s_stack s' = 1 :: r) \/ s_world s' = s_world s.
+Proof.
+  intros lim run_sub e s op s' H. unfold do_call in H.
+  destruct (match op with 241 => _ | _ => _ end) as [[[[[[[to0 v] ao] asz] ro] rsz] r]|]; [|discriminate].
+  repeat match type of H with
+         | (if ?b then _ else _) = _ => destruct b
+         | halt _ _ = _ => discriminate
+         | Done _ = _ => discriminate
+         end;
+  try (inversion H; subst; cbn; auto; fail).
+  destruct (run_sub _ _ _); inversion H; subst; cbn; eauto.
+Qed.
+
+Theorem evm_do_create_atomic : forall lim run_sub e s s',
+  do_create lim run_sub e s = Continue s' ->
+  (exists r, s_stack s' = (CREATE_BASE + (s_ctr s + 1)) :: r) \/ s_world s' = s_world s.
+Proof.
+  intros lim run_sub e s s' H. unfold do_create in H.
+  destruct (s_stack s) as [|v [|off [|size r]]]; try discriminate.
+  repeat match type of H with
+         | (if ?b then _ else _) = _ => destruct b
+         | halt _ _ = _ => discriminate
+         | Done _ = _ => discriminate
+         end;
+  try (inversion H; subst; cbn; auto; fail).
+  destruct (run_sub _ _ _); inversion H; subst; cbn; eauto.
+Qed.
+
+(* xfer (no-op on zero) and the interpreter's transfer agree on every balance *)
+Theorem xfer_transfer_same_balances : forall w from to v a,
+  get_balance (xfer w from to v) a = get_balance (transfer w from to v) a.
+Proof.
+  intros. unfold xfer. destruct (v =? 0) eqn:E; [|reflexivity].
+  apply Z.eqb_eq in E. subst. unfold transfer. rewrite !get_balance_set.
+  destruct (a =? to) eqn:E1; destruct (a =? from) eqn:E2;
+    try (apply Z.eqb_eq in E1); try (apply Z.eqb_eq in E2); subst;
+    rewrite ?get_balance_set, ?Z.eqb_refl, ?E1, ?E2; try lia.
+  - destruct (to =? from) eqn:E3; [apply Z.eqb_eq in E3; subst; lia | lia].
+Qed.
